@@ -533,18 +533,25 @@ impl rustc_driver::Callbacks for Cb {
         // type-checking a *user* of such a function may need the hidden type (auto-trait
         // leakage), which runs borrowck on the definer and steals its built MIR.
         let mut keys: Vec<rustc_hir::def_id::LocalDefId> = tcx.mir_keys(()).iter().copied().collect();
+        // Bodies a previous run found stolen (MIRFACTS_FIRST, fed back by the extraction front end) go before everything:
+        // an async fn whose future must be `Send` for a caller has its MIR taken when that *caller* is type-checked,
+        // and which of two such functions comes first in mir_keys is not something this driver can know in advance.
+        let first: HashSet<String> = std::env::var("MIRFACTS_FIRST").unwrap_or_default().split(';').filter(|x| !x.is_empty()).map(|x| x.to_string()).collect();
         let prio = |l: &rustc_hir::def_id::LocalDefId| -> u8 {
+            if !first.is_empty() && first.contains(&tcx.def_path_str(l.to_def_id())) {
+                return 0;
+            }
             let root = tcx.typeck_root_def_id(l.to_def_id());
-            let Some(root) = root.as_local() else { return 1 };
-            if !matches!(tcx.def_kind(root), DefKind::Fn | DefKind::AssocFn) { return 1; }
+            let Some(root) = root.as_local() else { return 2 };
+            if !matches!(tcx.def_kind(root), DefKind::Fn | DefKind::AssocFn) { return 2; }
             for op in tcx.opaque_types_defined_by(root).iter() {
                 // `-> impl Trait` and `async fn` both define an opaque type whose auto traits leak: type-checking a
                 // user that needs `Send` of it (tokio::spawn, .boxed()) borrow-checks the definer and steals its MIR
                 if let rustc_hir::OpaqueTyOrigin::FnReturn { .. } | rustc_hir::OpaqueTyOrigin::AsyncFn { .. } = tcx.local_opaque_ty_origin(op) {
-                    return 0;
+                    return 1;
                 }
             }
-            1
+            2
         };
         keys.sort_by_key(|l| prio(l));
         for ldid in keys.iter() {
